@@ -195,6 +195,10 @@ def _generate(ctx):
             else:
                 ops.append(['unrel', r.randint(0, 6), r.choice(['R11', 'R12'])])
         yield {'shape': 'newref', 'np': np_, 'nq': nq, 'ops': ops, 'fam': 'newref'}
+    for rounds in (2, 5):
+        for batch in (1, 3, 20):
+            for which in (0, 1, 2):
+                yield {'shape': 'churn', 'rounds': rounds, 'batch': batch, 'which': which, 'ops': [], 'fam': 'churn'}
 
 
 # ------------------------------------------------------------------ independent relational oracle
@@ -334,9 +338,59 @@ def _run_newref(case):
             'model_line': None}
 
 
+def _run_churn(case):
+    """D-only: instances are created, related, deleted and FORGOTTEN (the harness keeps no reference, the garbage collector
+    runs), then fresh instances of the same classes are created and related: a fresh instance is a live instance — whatever
+    the library remembers about deleted ones must not be confused with it (e.g. by address)."""
+    import gc
+    import xtuml as x
+    m = x.MetaModel(x.IntegerGenerator())
+    m.define_class('A', [('Id', 'unique_id'), ('B_Id', 'unique_id')])
+    m.define_class('B', [('Id', 'unique_id')])
+    m.define_class('N', [('Id', 'unique_id'), ('Next_Id', 'unique_id')])
+    m.define_association('R1', 'A', ['B_Id'], True, True, '', 'B', ['Id'], False, True, '').formalize()
+    m.define_association('R2', 'N', ['Next_Id'], False, True, 'precedes', 'N', ['Id'], False, True, 'succeeds').formalize()
+    fails = []
+    for rnd in range(case['rounds']):
+        for _ in range(case['batch']):
+            a, b = m.new('A'), m.new('B')
+            x.relate(a, b, 1)
+            n1, n2 = m.new('N'), m.new('N')
+            x.relate(n1, n2, 2, 'precedes')
+            for inst in ((a, n1) if case['which'] == 0 else (a, b, n1, n2) if case['which'] == 1 else (b, n2)):
+                x.delete(inst)
+            del a, b, n1, n2
+        gc.collect()
+        fresh = []
+        for _ in range(case['batch']):
+            a, b, n1, n2 = m.new('A'), m.new('B'), m.new('N'), m.new('N')
+            fresh.append((a, b, n1, n2))
+        for (a, b, n1, n2) in fresh:
+            for what, f in (('relate(a, b, R1)', lambda: x.relate(a, b, 1)), ("relate(n1, n2, R2, 'precedes')", lambda: x.relate(n1, n2, 2, 'precedes'))):
+                try:
+                    f()
+                except x.RelateException:
+                    fails.append({'sig': 'outcome', 'what': 'round %d: %s of two FRESH unlinked instances was rejected with RelateException '
+                                  'after earlier instances of the class had been deleted and forgotten' % (rnd, what)})
+            if x.navigate_one(a).B[1]() is not b or x.navigate_one(n2).N[2, 'precedes']() is not n1 and x.navigate_one(n1).N[2, 'precedes']() is not n2:
+                if not fails:
+                    fails.append({'sig': 'links-differ', 'what': 'round %d: fresh instances are not linked as related' % rnd})
+        if case['which'] == 2:
+            for (a, b, n1, n2) in fresh:
+                x.delete(a)
+                x.delete(n1)
+        del fresh
+        if fails:
+            break
+    return {'obs': [], 'd_fail': fails[:3], 'nontrivial': True, 'key': 'churn/%r' % (sorted(case.items()),), 'stats': {'fam_churn': 1},
+            'model_line': None}
+
+
 def run_impl(case):
     if case.get('fam') == 'newref':
         return _run_newref(case)
+    if case.get('fam') == 'churn':
+        return _run_churn(case)
     schema = mc.SHAPES[case['shape']]
     k0 = case['prefix'] if case.get('route') == 'sql' else 0
     model = mc.Model.from_sql(schema, case['ops'][:k0]) if k0 else mc.Model(schema)
@@ -466,6 +520,8 @@ def run_impl(case):
 
 
 def model_line(case):
+    if case.get('fam') in ('newref', 'churn'):
+        return None              # D-only families
     return mc.meta_line(mc.SHAPES[case['shape']], case['ops'])
 
 
